@@ -1,8 +1,14 @@
 package auth
 
 import (
+	"encoding/base64"
 	"fmt"
 	"strings"
+
+	"github.com/bluenviron/gortsplib/v5/pkg/base"
+	"github.com/bluenviron/gortsplib/v5/pkg/headers"
+
+	"verifharness/corr"
 )
 
 // sweeps: boundary enumerations (support for the theorems, not a substitute).
@@ -52,6 +58,122 @@ func (r *runner) sweeps() {
 	}
 	rec("", 0)
 	c.DistN("sweep:track-pattern", cnt)
+	r.enumSweeps()
+}
+
+// enumSweeps: exhaustive small scopes for the three text parsers.
+func (r *runner) enumSweeps() {
+	c := r.c
+	// key/value syntax of WWW-Authenticate: all token strings up to length L
+	toks := []string{"realm", "nonce", "algorithm", "=", "\"", ",", " ", "x", "MD5"}
+	L := c.N(4, 6)
+	var words []string
+	var rec func(prefix string, depth int)
+	rec = func(prefix string, depth int) {
+		words = append(words, prefix)
+		if depth == L {
+			return
+		}
+		for _, t := range toks {
+			rec(prefix+t, depth+1)
+		}
+	}
+	rec("", 0)
+	cs := corr.Case{Name: "enum-www", Nontrivial: true}
+	flush := func() {
+		if len(cs.Ops) > 0 {
+			c.Add(cs)
+		}
+		cs = corr.Case{Name: "enum-www", Nontrivial: true}
+	}
+	for i, w := range words {
+		for _, scheme := range []string{"Basic ", "Digest "} {
+			v := scheme + w
+			var a headers.Authenticate
+			impl := "err"
+			if err := a.Unmarshal(base.HeaderValue{v}); err == nil {
+				if a.Method == headers.AuthMethodBasic {
+					impl = "basic " + hxs(a.Realm)
+				} else {
+					impl = fmt.Sprintf("digest %s %s %s", hxs(a.Realm), hxs(a.Nonce), algTok(a.Algorithm))
+				}
+			}
+			cs.Ops = append(cs.Ops, "auth pwww "+hxs(v))
+			cs.Impl = append(cs.Impl, impl)
+		}
+		if i%500 == 499 {
+			flush()
+		}
+	}
+	flush()
+	c.DistN("sweep:enum-www", 2*len(words))
+
+	// base64 decoder: all strings over a small alphabet up to length B
+	alpha := []byte{'A', 'Q', '=', '\n', '-', '/'}
+	B := c.N(5, 7)
+	var b64s [][]byte
+	var rec2 func(prefix []byte, depth int)
+	rec2 = func(prefix []byte, depth int) {
+		b64s = append(b64s, append([]byte{}, prefix...))
+		if depth == B {
+			return
+		}
+		for _, a := range alpha {
+			rec2(append(prefix, a), depth+1)
+		}
+	}
+	rec2(nil, 0)
+	cs = corr.Case{Name: "enum-b64", Nontrivial: true}
+	for i, w := range b64s {
+		dec, err := base64.StdEncoding.DecodeString(string(w))
+		impl := "err"
+		if err == nil {
+			impl = "ok " + corr.Hex(dec)
+		}
+		cs.Ops = append(cs.Ops, "auth b64d "+corr.Hex(w))
+		cs.Impl = append(cs.Impl, impl)
+		if i%500 == 499 {
+			c.Add(cs)
+			cs = corr.Case{Name: "enum-b64", Nontrivial: true}
+		}
+	}
+	if len(cs.Ops) > 0 {
+		c.Add(cs)
+	}
+	c.DistN("sweep:enum-b64", len(b64s))
+
+	// Basic credentials: every text over {a, b, :} up to length 5 as the decoded user:pass
+	cs = corr.Case{Name: "enum-basic", Nontrivial: true}
+	var texts []string
+	var rec3 func(prefix string, depth int)
+	rec3 = func(prefix string, depth int) {
+		texts = append(texts, prefix)
+		if depth == 5 {
+			return
+		}
+		for _, a := range []string{"a", "b", ":"} {
+			rec3(prefix+a, depth+1)
+		}
+	}
+	rec3("", 0)
+	for _, t := range texts {
+		v := "Basic " + base64.StdEncoding.EncodeToString([]byte(t))
+		var a headers.Authorization
+		impl := "err"
+		if err := a.Unmarshal(base.HeaderValue{v}); err == nil {
+			impl = fmt.Sprintf("basic %s %s", hxs(a.Username), hxs(a.BasicPass))
+			// property: user = text before the first colon, password = the rest
+			if i := strings.Index(t, ":"); i < 0 || a.Username != t[:i] || a.BasicPass != t[i+1:] {
+				r.viol("Basic credentials are user ':' password with the password free to contain ':'", "auth-basic-split", &Input{Kind: "raw", Raw: &Raw{Authz: []S{S(v)}, URL: "rtsp://h/p"}}, t)
+			}
+		} else if strings.Contains(t, ":") {
+			r.viol("Basic credentials are user ':' password with the password free to contain ':'", "auth-basic-colon-password", &Input{Kind: "raw", Raw: &Raw{Authz: []S{S(v)}, URL: "rtsp://h/p", User: S(strings.SplitN(t, ":", 2)[0]), Pass: S(strings.SplitN(t, ":", 2)[1]), Methods: []int{0}}}, t)
+		}
+		cs.Ops = append(cs.Ops, "auth pauthz "+hxs(v))
+		cs.Impl = append(cs.Impl, impl)
+	}
+	c.Add(cs)
+	c.DistN("sweep:enum-basic", len(texts))
 }
 
 // trackCase: the SETUP rule on a given request URL: digest computed for every candidate base.
